@@ -27,22 +27,22 @@ type Clause struct {
 
 // Func is the contract of one function.
 type Func struct {
-	Key      string // pkg.Recv.Name or pkg.Name
-	Header   string
-	Recv     string   // receiver variable name ("" if none)
-	Params   []string // parameter names in order
-	Results  []string // result names in order (from the header in the contract)
+	Key         string // pkg.Recv.Name or pkg.Name
+	Header      string
+	Recv        string   // receiver variable name ("" if none)
+	Params      []string // parameter names in order
+	Results     []string // result names in order (from the header in the contract)
 	ResultTypes []string // result type expressions as written in the header
 	ParamTypes  []string
-	Requires []Clause
-	Ensures  []Clause
-	Assigns  []string
-	Assigned bool            // an assigns clause was given (possibly empty)
-	LoopInv  map[int][]Clause // loop ordinal (1-based, source order) -> invariants
-	Attrs    map[string][]string
-	Extern   bool // trusted external contract (stdlib / vendored)
-	File     string
-	Line     int
+	Requires    []Clause
+	Ensures     []Clause
+	Assigns     []string
+	Assigned    bool             // an assigns clause was given (possibly empty)
+	LoopInv     map[int][]Clause // loop ordinal (1-based, source order) -> invariants
+	Attrs       map[string][]string
+	Extern      bool // trusted external contract (stdlib / vendored)
+	File        string
+	Line        int
 }
 
 func (f *Func) Attr(k string) string {
@@ -54,14 +54,21 @@ func (f *Func) Attr(k string) string {
 
 // Set is all contracts of one package (or several).
 type Set struct {
-	Funcs  map[string]*Func
-	Ghost  map[string]spec.Expr // package-level abbreviations, keyed pkg.name
-	Axioms []Clause
-	Invs   map[string][]Clause // type name (pkg.Type) -> invariants
+	Funcs     map[string]*Func
+	Ghost     map[string]spec.Expr // package-level abbreviations, keyed pkg.name
+	Axioms    []Clause
+	Invs      map[string][]Clause  // type name (pkg.Type) -> invariants
+	GhostFuns map[string]*GhostFun // parameterised abbreviations, keyed pkg.name
+}
+
+// GhostFun is "ghost-fun name(a, b) = expr".
+type GhostFun struct {
+	Params []string
+	Body   spec.Expr
 }
 
 func NewSet() *Set {
-	return &Set{Funcs: map[string]*Func{}, Ghost: map[string]spec.Expr{}, Invs: map[string][]Clause{}}
+	return &Set{Funcs: map[string]*Func{}, Ghost: map[string]spec.Expr{}, Invs: map[string][]Clause{}, GhostFuns: map[string]*GhostFun{}}
 }
 
 func (s *Set) Keys() []string {
@@ -228,6 +235,24 @@ func (s *Set) ParseFile(path string) error {
 				return fmt.Errorf("%s:%d: %v", path, c.line, err)
 			}
 			s.Ghost[pkgName+"."+strings.TrimSpace(rest[:j])] = e
+		case "ghost-fun":
+			j := strings.Index(rest, "=")
+			k := strings.Index(rest, "(")
+			l := strings.Index(rest, ")")
+			if j < 0 || k < 0 || l < k || l > j {
+				return fmt.Errorf("%s:%d: ghost-fun needs name(params) = expr", path, c.line)
+			}
+			e, err := spec.Parse(strings.TrimSpace(rest[j+1:]))
+			if err != nil {
+				return fmt.Errorf("%s:%d: %v", path, c.line, err)
+			}
+			gf := &GhostFun{Body: e}
+			for _, pn := range strings.Split(rest[k+1:l], ",") {
+				if pn = strings.TrimSpace(pn); pn != "" {
+					gf.Params = append(gf.Params, pn)
+				}
+			}
+			s.GhostFuns[pkgName+"."+strings.TrimSpace(rest[:k])] = gf
 		case "axiom":
 			cl, err := mk(rest, c.line)
 			if err != nil {
